@@ -103,7 +103,7 @@ class Flow:
                 else:
                     c = payload
                     if sites:
-                        out.add(("call", c.name, c.block))
+                        out.add(("call", c.name, c.block, proj))
                     else:
                         out.add(("call", c.name))
                     if stop_calls is not None and c.is_(stop_calls):
